@@ -50,16 +50,19 @@ pub fn init(verbose: bool) {
     utils::set_panic_hook();
 }
 
+#[cfg(not(feature = "beff_verif"))]
 #[wasm_bindgen]
 extern "C" {
     fn resolve_import(current_file: &str, specifier: &str) -> Option<String>;
 }
 
+#[cfg(not(feature = "beff_verif"))]
 #[wasm_bindgen]
 extern "C" {
     fn read_file_content(file_name: &str) -> Option<String>;
 }
 
+#[cfg(not(feature = "beff_verif"))]
 #[wasm_bindgen]
 extern "C" {
     fn emit_diagnostic(diag: JsValue);
@@ -143,6 +146,7 @@ fn run_extraction(entry: EntryPoints) -> ParserExtractResult {
         })
     })
 }
+#[cfg(not(feature = "beff_verif"))]
 fn print_errors(errors: &[DiagnosticInformation]) {
     let v = WasmDiagnostic::from_diagnostics(errors);
     let v = serde_json::to_string(&v).expect("should be able to serialize diagnostics");
@@ -176,3 +180,8 @@ fn update_file_content_inner(file_name: &str, content: &str) {
         })
     }
 }
+
+#[cfg(feature = "beff_verif")]
+pub mod verif_host;
+#[cfg(feature = "beff_verif")]
+use verif_host::{print_errors, read_file_content, resolve_import};
